@@ -55,7 +55,8 @@ class Probe(Command):
             deps = list(flatten(v)) if isinstance(v, (list, tuple)) else [v]
             for dep in deps:
                 r = dep.result
-                LOG.append(("consumed", self.result_name, dep.result_name, r is dep._result and dep.is_finished))
+                own = self.program is None or self.program.commands.get(dep.result_name) is dep    # the program's command, not a stand-in
+                LOG.append(("consumed", self.result_name, dep.result_name, r is dep._result and dep.is_finished and own))
                 hs.append(NONE_H if r is None else r.h)
         LOG.append(("exit", self.result_name))
         if returns_none(int(kwargs["Id"])):
